@@ -492,5 +492,6 @@ func genC02(g *Gen) {
 	_ = strings.Join
 
 	// (e) the real DiskWriter behind the real diff on a scratch directory (see c05.go)
+	c05LinkMeta(g, 0x0203)
 	genRecvCases(g, 0x0203, g.Vol(500, 8000), false)
 }
